@@ -18,7 +18,7 @@ Fixpoint fill (k : list bool) (d : list Z) : list Z :=
   | false :: k' => GAPC :: fill k' d
   end.
 
-Definition salign := list (Z * list Z).   (* (name, gapped string) in order *)
+Definition salign := list (name * list Z).   (* association list name -> gapped string, in order *)
 
 Definition srows (a : salign) : list (list Z) := map snd a.
 Definition map_rows (f : list Z -> list Z) (a : salign) : salign := map (fun nr => (fst nr, f (snd nr))) a.
@@ -62,8 +62,16 @@ Definition kept_motifs (p : pred) (m : Z) (a : salign) : list Z :=
 Definition take_motifs (m : Z) (js : list Z) (s : list Z) : list Z :=
   flat_map (fun j => ssub s (j * m) ((j + 1) * m)) js.
 
-Definition find_row (n : Z) (a : salign) : option (list Z) :=
-  match filter (fun nr => fst nr =? n) a with (_, s) :: _ => Some s | [] => None end.
+Definition find_row (n : name) (a : salign) : option (list Z) :=
+  match filter (fun nr => name_eqb (fst nr) n) a with (_, s) :: _ => Some s | [] => None end.
+
+(** [a + b]: rows paired by NAME, in the order of the left operand; a name the
+    right operand lacks is an error *)
+Definition s_add_named (a b : salign) : res salign :=
+  mapM (fun nr => match find_row (fst nr) b with
+                  | Some t => Ok (fst nr, snd nr ++ t)
+                  | None => Err E_Value
+                  end) a.
 
 Definition nongap_cols (s : list Z) : list Z :=
   filter (fun i => negb (znth 0 s i =? GAPC)) (zrange 0 (zlen s)).
@@ -97,8 +105,9 @@ Definition spec_apply (k : kind) (a : salign) (o : aop) : res (kind * salign) :=
       else let j := if i <? 0 then i + n else i in Ok (k, map_rows (fun s => ssub s j (j + 1)) a)
   | ORc => if nucleic_kind k then Ok (k, map_rows (rc_str k) a) else Err E_Type
   | OAddSelf => Ok (k, map_rows (fun s => s ++ s) a)
-  | OAddRows rows =>
-      if negb (zlen rows =? zlen a) then Err E_Value else Ok (k, zip_app a rows)
+  | OAddRows other =>
+      if negb (zlen a =? zlen other) then Err E_Value
+      else bind (s_add_named a other) (fun r => Ok (k, r))
   | OAddSlices x y x' y' =>
       Ok (k, map_rows (fun s => py_slice s (Some x) (Some y) 1 ++ py_slice s (Some x') (Some y') 1) a)
   | OTakePos cols negate =>
@@ -106,9 +115,10 @@ Definition spec_apply (k : kind) (a : salign) (o : aop) : res (kind * salign) :=
       else if existsb (fun i => (i <? - n) || (i >=? n)) cols then Err E_Index
       else let cols := map (fun i => if i <? 0 then i + n else i) cols in
            Ok (k, map_rows (take_cols cols) a)
-  | OTakeSeqs names negate =>
+  | OTakeSeqs arg negate =>
+      let names := norm_names arg in       (* one name given as a plain string means that one name *)
       if negate then
-        match filter (fun nr => negb (zmem (fst nr) names)) a with
+        match filter (fun nr => negb (nmem (fst nr) names)) a with
         | [] => Err E_None
         | r => Ok (k, r)
         end
@@ -145,6 +155,7 @@ Definition spec_apply (k : kind) (a : salign) (o : aop) : res (kind * salign) :=
       if (0 <=? i) && (i <? s_n_windows n w st) && (0 <? w) && (0 <? st)
       then Ok (k, map_rows (fun s => ssub s (i * st) (i * st + w)) a)
       else Err E_None
+  | ORename mp => Ok (k, map (fun nr => (rename_of mp (fst nr), snd nr)) a)
   end.
 
 (** a failing operation leaves the alignment as it was *)
@@ -174,13 +185,14 @@ Definition RowWF (r : arow) : Prop :=
 
 Definition astr (a : oalign) : salign := map (fun nr => (fst nr, row_str (snd nr))) a.
 
-(** the alignment invariant: every row well formed, one moltype, rows equally long *)
+(** the alignment invariant: every row well formed, one moltype, rows equally long, names distinct *)
 Definition AlnWF (a : oalign) : Prop :=
-  a <> [] /\ Forall (fun nr => RowWF (snd nr) /\ skind (adata (snd nr)) = al_kind a) a /\ rect (astr a).
+  a <> [] /\ Forall (fun nr => RowWF (snd nr) /\ skind (adata (snd nr)) = al_kind a) a /\ rect (astr a) /\
+  NoDup (map fst a).
 
 (** ** read-only methods as functions of the named gapped strings *)
-Definition s_names (a : salign) : list Z := map fst a.
-Definition s_get_gapped_seq (a : salign) (n : Z) : option (list Z) := find_row n a.
+Definition s_names (a : salign) : list name := map fst a.
+Definition s_get_gapped_seq (a : salign) (n : name) : option (list Z) := find_row n a.
 (** column [j] *)
 Definition s_positions (a : salign) : list (list Z) :=
   map (fun j => flat_map (fun s => ssub s j (j + 1)) (srows a)) (zrange 0 (slen a)).
@@ -190,3 +202,12 @@ Definition s_count_gaps_per_pos (a : salign) : list Z :=
   map (fun j => zlen (filter (fun s => is_gapch (znth 0 s j)) (srows a))) (zrange 0 (slen a)).
 (** the ungapped sequences *)
 Definition s_degap (a : salign) : salign := map_rows (filter (fun c => negb (is_gapch c))) a.
+
+(** number of gap characters of each row *)
+Definition s_count_gaps_per_seq (a : salign) : list Z := map (fun nr => zlen (filter is_gapch (snd nr))) a.
+(** columns holding more than one distinct character *)
+Definition s_variable_positions (a : salign) : list Z :=
+  map fst (filter (fun pc => 1 <? n_distinct (snd pc)) (combine (zrange 0 (slen a)) (s_positions a))).
+(** number of canonical characters of each row *)
+Definition s_get_lengths (canon : list Z) (a : salign) : list (name * Z) :=
+  map (fun nr => (fst nr, s_count_in canon (snd nr))) a.
